@@ -2516,7 +2516,11 @@ func (n *NullValue) String() string {
 
 func (n *NullValue) Compare(val TypedValue) (int, error) {
 	if n.t != AnyType && val.Type() != AnyType && n.t != val.Type() {
-		return 0, ErrNotComparableValues
+		// a NULL of a numeric column compares with a numeric constant of the other
+		// numeric type just like a non-NULL value of that column does
+		if _, coercible := coerceTypes(n.t, val.Type()); !coercible {
+			return 0, ErrNotComparableValues
+		}
 	}
 
 	if val.RawValue() == nil {
